@@ -251,6 +251,16 @@ pub fn oracle(f: u32, a: &Args, out: &Args) -> Option<(&'static str, String)> {
                 *pos += n;
                 Some(v)
             };
+            // C13: a capsule of another type whose declared length runs past the end of the frame is an
+            // incomplete unknown element: nothing in it may be taken for a close capsule
+            {
+                let mut p0 = 0;
+                if let (Some(ty), Some(l)) = (vi(&mut p0), vi(&mut p0)) {
+                    if ty != 0x2843 && l > (b.len() - p0) as u64 && out[0] != vec![0] {
+                        return Some(("C13+C04", format!("the value bytes of an incomplete capsule of unknown type {:#x} (declared {} bytes, {} present) were interpreted: {:?}", ty, l, b.len() - p0, out)));
+                    }
+                }
+            }
             let mut pos = 0;
             if let (Some(0x2843), Some(l)) = (vi(&mut pos), vi(&mut pos)) {
                 if l as usize == b.len() - pos {
@@ -448,6 +458,14 @@ pub fn generate(rng: &mut Rng, thorough: bool) -> Vec<Case> {
     }
     for ty in [0u64, 1, 0x2842, 0x2844, 0x21, 0x40, MAXV] {
         cs.push(Case::new(405, vec![b2a(&mk(ty, 4, &[0, 0, 0, 1]))], "other-capsule-type"));
+    }
+    // capsules of other types whose VALUE looks like a close capsule: complete, with a declared length
+    // beyond the frame (incomplete), and shorter than the value (a close-lookalike behind it)
+    for ty in [0u64, 0x17, 0x21, 0x2842, 0x2844, 0x3c0e, MAXV] {
+        let inner = mk(0x2843, 7, &[0, 0, 0, 42, b'b', b'y', b'e']);
+        for decl in [inner.len() as u64, inner.len() as u64 + 1, 32, 16384, MAXV, 0, 2] {
+            cs.push(Case::new(405, vec![b2a(&mk(ty, decl, &inner))], "unknown-capsule-holding-close-lookalike"));
+        }
     }
     cs.push(Case::new(405, vec![b2a(&mk(0x2843, 100, &[0, 0, 0, 1]))], "length-beyond-frame"));
     cs.push(Case::new(405, vec![b2a(&mk(0x2843, MAXV, &[0, 0, 0, 1]))], "length-beyond-frame"));
